@@ -21,6 +21,11 @@ one() {
     rm -rf $d
     return
   fi
+  if python3 -c "import json,sys;sys.exit(0 if json.load(open('/verif/seeded/$sid/meta.json')).get('withdrawn') else 1)"; then
+    echo "$sid - WITHDRAWN"
+    rm -rf $d
+    return
+  fi
   for chk in $(python3 -c "import json;print(' '.join(json.load(open('/verif/seeded/$sid/meta.json'))['detected_by']))"); do
     if VERIF_REPO=$d ./check $chk --tier quick 2>&1 | grep -q "^VIOLATION property=$chk"; then
       echo "$sid $chk CAUGHT"
